@@ -210,6 +210,15 @@ func c09CLI(c *fw.Ctx) fw.Outcome {
 	if d == 0 {
 		d = 1e6
 	}
+	if r.P(1, 8) {
+		// a day, or more: legal shifts in both directions (SubRip counts hours up to 99 and beyond)
+		d = fw.Pick(r, []int64{24 * 3600e9, -24 * 3600e9, 24*3600e9 + 1e6, 30 * 3600e9, 48 * 3600e9, -(24*3600e9 - 1e6)})
+		if d < 0 {
+			for i := range cs {
+				cs[i].S, cs[i].E = cs[i].S+25*3600e9, cs[i].E+25*3600e9 // cues past the 24th hour, so that something is left
+			}
+		}
+	}
 	if r.P(1, 3) {
 		d += r.I64n(1e6) // a shift that is not a whole number of milliseconds: the file then holds the shifted instants truncated
 	}
